@@ -361,8 +361,13 @@ package parser
 
 //@ func parser.joinErrors
 //@   use perr
-//@   trusted flattens joined errors with append(errorList, unwrapper.Unwrap()...); not yet verified
 //@   ensures (result == nil) == allNilL(args, len(args)) && nf(result) == nfL(args, len(args))
+//@ loop 1
+//@   invariant -1 <= rangeindex && rangeindex < len(args)
+//@   invariant (len(errorList) == 0) == allNilL(args, rangeindex + 1)
+//@   invariant nfL(errorList, len(errorList)) == nfL(args, rangeindex + 1)
+//@   invariant noNilL(errorList, len(errorList))
+//@   decreases len(args) - rangeindex
 
 //@ func parser.(TokenKind).String
 //@   trusted generated by stringer; returns some text
